@@ -135,6 +135,10 @@ def run_numeric(prop, tier, ops, alphas, alpha_of_type, ralpha_of_type, unary32_
         if tier == 'thorough':
             jobs.append(('K-clangO2', kb, {'cc': 'clang', 'cflags': ('-O2',), 'timeout': 1800}))
             jobs.append(('K-gccO1', kb, {'cc': 'gcc', 'cflags': ('-O1',), 'timeout': 1800}))
+    # plain `char` is unsigned on many ABIs (ARM, PowerPC, s390): level 1 again compiled with -funsigned-char (the runtime's 8-bit signed type must
+    # not be plain char)
+    for part in chunks(l1, 8):
+        jobs.append(('L1-unsigned-char', make_batch(part, alphas, alpha_of_type, direct=False), {'cc': 'gcc', 'cflags': ('-O1', '-funsigned-char')}))
     # fallback (non-builtin) bit counting paths of the runtime header
     nb = [leaf_op(o) for o in ops if NUMOP_NAME[o].split('.')[1] in ('clz', 'ctz', 'popcnt')]
     if nb:
